@@ -173,13 +173,14 @@ fn pairing_contract_body<const N: usize, const M: usize>() {
     let next = next_change_from_bounds(d, as_array::<N>(&s), as_array::<M>(&e));
     vpost!("C02.dated.pairing.next_change_is_the_end_or_the_start_of_that_interval", next == pairing_next_change(d, &s, &e));
     vcover!("dated.pairing.open", open);
-    vcover!("dated.pairing.closed_between_two_intervals", !open && N >= 2 && d > s.v[0] && d < s.v[N - 1]);
-    vcover!("dated.pairing.open_from_the_start_of_time", open && (N == 0 || d < s.v[0]));
+    vcover!("dated.pairing.closed_between_two_intervals", N < 2 || (!open && d > s.v[0] && d < s.v[N - 1]));
+    vcover!("dated.pairing.open_from_the_start_of_time", N != 0 || M == 0 || open);
+    vcover!("dated.pairing.closed", !open);
 }
 
 //@H props=C01,C02,C04 tier=deep want_tier=quick kind=bounded cap=1500 mem=medium bound="1 start bound, 1 end bound" domain="all dates 1900..9999 per bound and for the date"
 #[cfg_attr(kani, kani::proof)]
-#[cfg_attr(kani, kani::unwind(6))]
+#[cfg_attr(kani, kani::unwind(4))]
 #[cfg_attr(verif_replay, test)]
 fn dated_pairing_1_1() {
     pairing_contract_body::<1, 1>()
@@ -187,7 +188,7 @@ fn dated_pairing_1_1() {
 
 //@H props=C01,C02,C04 tier=deep want_tier=quick kind=bounded cap=1500 mem=medium bound="0 start bounds, 2 end bounds" domain="all dates 1900..9999 per bound and for the date"
 #[cfg_attr(kani, kani::proof)]
-#[cfg_attr(kani, kani::unwind(6))]
+#[cfg_attr(kani, kani::unwind(4))]
 #[cfg_attr(verif_replay, test)]
 fn dated_pairing_0_2() {
     pairing_contract_body::<0, 2>()
@@ -195,7 +196,7 @@ fn dated_pairing_0_2() {
 
 //@H props=C01,C02,C04 tier=deep want_tier=quick kind=bounded cap=1500 mem=medium bound="2 start bounds, 0 end bounds" domain="all dates 1900..9999 per bound and for the date"
 #[cfg_attr(kani, kani::proof)]
-#[cfg_attr(kani, kani::unwind(6))]
+#[cfg_attr(kani, kani::unwind(4))]
 #[cfg_attr(verif_replay, test)]
 fn dated_pairing_2_0() {
     pairing_contract_body::<2, 0>()
@@ -219,24 +220,65 @@ fn dated_pairing_1_3() {
 
 //@H props=C01,C02,C04 tier=deep want_tier=thorough kind=bounded cap=3000 mem=medium bound="3 start bounds, 3 end bounds (a year-less range seen through its three-year window)" domain="all dates 1900..9999 per bound and for the date"
 #[cfg_attr(kani, kani::proof)]
-#[cfg_attr(kani, kani::unwind(6))]
+#[cfg_attr(kani, kani::unwind(8))]
 #[cfg_attr(verif_replay, test)]
 fn dated_pairing_3_3() {
     pairing_contract_body::<3, 3>()
 }
 
 // ---- contract models of the pairing entry points (what the callers below see instead of the real pairing code) ------
+//
+// The models read a prefix of at most PREFIX bounds from each (lazy) bound iterator - the hint arm hands over a
+// twelve-year window of which only the first years can matter - and evaluate the contract on the prefix.  That the
+// prefix decides the answer is itself an obligation (`...bounds_beyond_the_first_four_cannot_matter`): it fails if the
+// contract would have to look at a bound that was not read.
 
-fn drain(it: impl IntoIterator<Item = NaiveDate>) -> Bounds {
+const PREFIX: usize = 4;
+
+/// (bounds read, iterator exhausted)
+fn drain_prefix(it: impl IntoIterator<Item = NaiveDate>) -> (Bounds, bool) {
     let mut b = Bounds::empty();
     let mut it = it.into_iter();
-    while let Some(x) = it.next() {
-        // more bounds than the model can hold: outside the contract's reach (never for a three-year or twelve-year window)
-        vpost!("C01.dated.pairing_model_capacity", b.n < MAXB);
-        b.v[b.n] = x;
-        b.n += 1;
+    while b.n < PREFIX {
+        match it.next() {
+            Some(x) => {
+                b.v[b.n] = x;
+                b.n += 1;
+            }
+            None => return (b, true),
+        }
     }
-    b
+    (b, false)
+}
+
+/// `pairing_deciding_interval` on prefixes: Err(()) when bounds that were not read could change the answer
+fn deciding_interval_on_prefix(
+    d: NaiveDate,
+    s: &Bounds,
+    s_exhausted: bool,
+    e: &Bounds,
+    e_exhausted: bool,
+) -> Result<Option<(NaiveDate, NaiveDate)>, ()> {
+    let mut i = 0;
+    while i < s.n {
+        let end = match e.first_not_before(s.v[i]) {
+            Some(end) => end,
+            None if e_exhausted => date_end(),
+            None => return Err(()),
+        };
+        if end >= d {
+            return Ok(Some((s.v[i], end)));
+        }
+        i += 1;
+    }
+    if !s_exhausted {
+        return Err(());
+    }
+    match e.first_not_before(d) {
+        Some(end) => Ok(Some((date_start(), end))),
+        None if e_exhausted => Ok(None),
+        None => Err(()),
+    }
 }
 
 pub(crate) fn is_open_from_bounds_contract(
@@ -244,10 +286,15 @@ pub(crate) fn is_open_from_bounds_contract(
     bounds_start: impl IntoIterator<Item = NaiveDate>,
     bounds_end: impl IntoIterator<Item = NaiveDate>,
 ) -> bool {
-    let (s, e) = (drain(bounds_start), drain(bounds_end));
+    let ((s, s_ex), (e, e_ex)) = (drain_prefix(bounds_start), drain_prefix(bounds_end));
     // precondition of the pairing contract: established by the caller
     vpost!("C01.dated.caller_passes_strictly_increasing_bounds", s.strictly_increasing() && e.strictly_increasing());
-    pairing_is_open(date, &s, &e)
+    let decided = deciding_interval_on_prefix(date, &s, s_ex, &e, e_ex);
+    vpost!("C01.dated.bounds_beyond_the_first_four_cannot_matter", decided.is_ok());
+    match decided {
+        Ok(Some((start, _))) => start <= date,
+        _ => false,
+    }
 }
 
 pub(crate) fn next_change_from_bounds_contract(
@@ -255,9 +302,40 @@ pub(crate) fn next_change_from_bounds_contract(
     bounds_start: impl IntoIterator<Item = NaiveDate>,
     bounds_end: impl IntoIterator<Item = NaiveDate>,
 ) -> NaiveDate {
-    let (s, e) = (drain(bounds_start), drain(bounds_end));
+    let ((s, s_ex), (e, e_ex)) = (drain_prefix(bounds_start), drain_prefix(bounds_end));
     vpost!("C02.dated.caller_passes_strictly_increasing_bounds", s.strictly_increasing() && e.strictly_increasing());
-    pairing_next_change(date, &s, &e)
+    let decided = deciding_interval_on_prefix(date, &s, s_ex, &e, e_ex);
+    vpost!("C02.dated.bounds_beyond_the_first_four_cannot_matter", decided.is_ok());
+    match decided {
+        Ok(Some((start, end))) => {
+            if start <= date { end.succ_opt().unwrap_or(date_end()) } else { start }
+        }
+        _ => date_end(),
+    }
+}
+
+/// the prefix evaluation agrees with the contract whenever it gives an answer (pure specification lemma, any lists)
+fn prefix_lemma_body<const N: usize, const M: usize>() {
+    let s = any_bounds::<N>();
+    let e = any_bounds::<M>();
+    let d = any_date();
+    let (ks, ke) = (nd::u8() as usize, nd::u8() as usize);
+    nd::assume(ks <= N && ke <= M);
+    let (mut sp, mut ep) = (s, e);
+    sp.n = ks;
+    ep.n = ke;
+    if let Ok(r) = deciding_interval_on_prefix(d, &sp, ks == N, &ep, ke == M) {
+        vpost!("C01.dated.prefix_evaluation_agrees_with_the_pairing_contract", r == pairing_deciding_interval(d, &s, &e));
+    }
+    vcover!("dated.prefix.truncated_and_decided", ks < N && deciding_interval_on_prefix(d, &sp, ks == N, &ep, ke == M).is_ok());
+}
+
+//@H props=C01,C02 tier=deep want_tier=quick kind=bounded cap=900 bound="lists of 3 start and 3 end bounds, every prefix of them" domain="all dates per bound and for the date"
+#[cfg_attr(kani, kani::proof)]
+#[cfg_attr(kani, kani::unwind(5))]
+#[cfg_attr(verif_replay, test)]
+fn dated_prefix_evaluation_lemma() {
+    prefix_lemma_body::<3, 3>()
 }
 
 // ---- year-less fixed bounds, no offsets: `Dec 24-Jan 6`, `Mar 1-Apr 15`, `Jul 14` -------------------------
@@ -272,16 +350,21 @@ fn spec_fixed_no_year(sm: u32, sd: u32, em: u32, ed: u32, d: NaiveDate) -> bool 
     if (sm, sd) <= (em, ed) { s <= d && d <= e } else { d >= s || d <= e }
 }
 
-fn fixed_no_year_filter_body<const Y: i32>() {
+/// KF-C01-dated-range-of-nonexistent-days: both bounds in the same month, start day <= end day, and the start day does
+/// not exist in that month in some year (`Apr 31`, `Feb 30-Feb 31`, `Feb 29-Feb 30`): the clamped start (first day of the
+/// next month) lies after the clamped end (last day of the month) and the code treats the range as wrapping over new year
+fn invalid_day_region(sm: Month, sd: u8, em: Month, ed: u8) -> bool {
+    sm == em && sd <= ed && sd as u32 > days_in_month(1999, sm as u32)
+}
+
+fn fixed_no_year_filter_body<const Y: i32>(known_finding_region: bool) {
     let (sm, sd, em, ed) = (any_month(), any_day(), any_month(), any_day());
     let r = ds::MonthdayRange::Date {
         start: (Date::md(sd, sm), DateOffset::default()),
         end: (Date::md(ed, em), DateOffset::default()),
     };
     let d = any_date_of::<Y>();
-    // known finding KF-C01-invalid-day-range: both nominal days beyond the end of the same month (`Apr 31`, `Feb 30-Feb 31`)
-    let dim_s = days_in_month(d.year(), sm as u32);
-    nd::assume(!(sm == em && sd <= ed && sd as u32 > dim_s));
+    nd::assume(invalid_day_region(sm, sd, em, ed) == known_finding_region);
     // leap-day selector has its own arm (`Feb 29`)
     nd::assume(!(sm == Month::February && em == Month::February && sd == 29 && ed == 29));
     let got = r.filter(d, &ctx());
@@ -297,15 +380,71 @@ fn fixed_no_year_filter_body<const Y: i32>() {
 
 //@H props=C01,C04 tier=deep want_tier=quick kind=complete cap=1800 mem=medium domain="all (month, day 1..=31) start and end bounds x all dates 1900..9999, outside the invalid-day region; callees replaced by their contracts"
 #[cfg_attr(kani, kani::proof)]
-#[cfg_attr(kani, kani::unwind(15))]
+#[cfg_attr(kani, kani::unwind(5))]
 #[cfg_attr(kani, kani::stub(super::valid_ymd_after, valid_ymd_after_model))]
 #[cfg_attr(kani, kani::stub(super::valid_ymd_before, valid_ymd_before_model))]
 #[cfg_attr(kani, kani::stub(super::is_open_from_bounds, is_open_from_bounds_contract))]
 #[cfg_attr(kani, kani::stub(super::next_change_from_bounds, next_change_from_bounds_contract))]
 #[cfg_attr(verif_replay, test)]
 fn dated_filter_fixed_no_year() {
-    fixed_no_year_filter_body::<0>()
+    fixed_no_year_filter_body::<0>(false)
 }
+
+//@H props=C01,C04 tier=deep want_tier=quick kind=bounded cap=1500 mem=medium bound="dates of the year 2024 (a leap year)" domain="all (month, day 1..=31) start and end bounds x every day of 2024, outside the invalid-day region; callees replaced by their contracts"
+#[cfg_attr(kani, kani::proof)]
+#[cfg_attr(kani, kani::unwind(5))]
+#[cfg_attr(kani, kani::stub(super::valid_ymd_after, valid_ymd_after_model))]
+#[cfg_attr(kani, kani::stub(super::valid_ymd_before, valid_ymd_before_model))]
+#[cfg_attr(kani, kani::stub(super::is_open_from_bounds, is_open_from_bounds_contract))]
+#[cfg_attr(kani, kani::stub(super::next_change_from_bounds, next_change_from_bounds_contract))]
+#[cfg_attr(verif_replay, test)]
+fn dated_filter_fixed_no_year_2024() {
+    fixed_no_year_filter_body::<2024>(false)
+}
+
+//@H props=C01 tier=deep want_tier=quick kind=bounded cap=1500 mem=medium finding=KF-C01-dated-range-of-nonexistent-days bound="the witness `Apr 31`, dates of the year 2024" domain="`Apr 31` x every day of 2024"
+#[cfg_attr(kani, kani::proof)]
+#[cfg_attr(kani, kani::unwind(5))]
+#[cfg_attr(kani, kani::stub(super::valid_ymd_after, valid_ymd_after_model))]
+#[cfg_attr(kani, kani::stub(super::valid_ymd_before, valid_ymd_before_model))]
+#[cfg_attr(kani, kani::stub(super::is_open_from_bounds, is_open_from_bounds_contract))]
+#[cfg_attr(kani, kani::stub(super::next_change_from_bounds, next_change_from_bounds_contract))]
+#[cfg_attr(verif_replay, test)]
+fn dated_filter_nonexistent_days_known_finding() {
+    // the witness of KNOWN_FINDINGS.json: `Apr 31`
+    let r = ds::MonthdayRange::Date {
+        start: (Date::md(31, Month::April), DateOffset::default()),
+        end: (Date::md(31, Month::April), DateOffset::default()),
+    };
+    let d = any_date_of::<2024>();
+    let got = r.filter(d, &ctx());
+    vpost!("C01.dated.year_less_range_is_every_day_from_start_to_end_recurring_yearly", got == spec_fixed_no_year(4, 31, 4, 31, d));
+}
+
+//@H props=C01,C04 tier=deep want_tier=quick kind=bounded cap=1500 mem=medium bound="dates of the year 2100 (a century year that is not a leap year)" domain="all (month, day 1..=31) start and end bounds x every day of 2100, outside the invalid-day region; callees replaced by their contracts"
+#[cfg_attr(kani, kani::proof)]
+#[cfg_attr(kani, kani::unwind(5))]
+#[cfg_attr(kani, kani::stub(super::valid_ymd_after, valid_ymd_after_model))]
+#[cfg_attr(kani, kani::stub(super::valid_ymd_before, valid_ymd_before_model))]
+#[cfg_attr(kani, kani::stub(super::is_open_from_bounds, is_open_from_bounds_contract))]
+#[cfg_attr(kani, kani::stub(super::next_change_from_bounds, next_change_from_bounds_contract))]
+#[cfg_attr(verif_replay, test)]
+fn dated_filter_fixed_no_year_2100() {
+    fixed_no_year_filter_body::<2100>(false)
+}
+
+//@H props=C01,C04 tier=deep want_tier=quick kind=bounded cap=1500 mem=medium bound="dates of the year 9999 (the last supported year)" domain="all (month, day 1..=31) start and end bounds x every day of 9999, outside the invalid-day region; callees replaced by their contracts"
+#[cfg_attr(kani, kani::proof)]
+#[cfg_attr(kani, kani::unwind(5))]
+#[cfg_attr(kani, kani::stub(super::valid_ymd_after, valid_ymd_after_model))]
+#[cfg_attr(kani, kani::stub(super::valid_ymd_before, valid_ymd_before_model))]
+#[cfg_attr(kani, kani::stub(super::is_open_from_bounds, is_open_from_bounds_contract))]
+#[cfg_attr(kani, kani::stub(super::next_change_from_bounds, next_change_from_bounds_contract))]
+#[cfg_attr(verif_replay, test)]
+fn dated_filter_fixed_no_year_9999() {
+    fixed_no_year_filter_body::<9999>(false)
+}
+
 
 // ---- the interval pairing code on abstract bound lists ------------------------------------------------------
 
@@ -341,7 +480,7 @@ fn intervals_from_bounds_body<const N: usize, const M: usize>() {
 
 //@H props=C01,C04 tier=deep want_tier=quick kind=bounded cap=1500 mem=medium bound="1 start bound, 3 end bounds (the shape of `2025 Jan 10-Jan 20` seen from the year before)" domain="all dates 1900..9999 per bound, any order"
 #[cfg_attr(kani, kani::proof)]
-#[cfg_attr(kani, kani::unwind(6))]
+#[cfg_attr(kani, kani::unwind(5))]
 #[cfg_attr(verif_replay, test)]
 fn dated_intervals_from_bounds_1_3() {
     intervals_from_bounds_body::<1, 3>()
@@ -349,7 +488,7 @@ fn dated_intervals_from_bounds_1_3() {
 
 //@H props=C01,C04 tier=deep want_tier=thorough kind=bounded cap=2400 mem=medium bound="2 start bounds, 2 end bounds" domain="all dates 1900..9999 per bound, any order"
 #[cfg_attr(kani, kani::proof)]
-#[cfg_attr(kani, kani::unwind(6))]
+#[cfg_attr(kani, kani::unwind(4))]
 #[cfg_attr(verif_replay, test)]
 fn dated_intervals_from_bounds_2_2() {
     intervals_from_bounds_body::<2, 2>()
@@ -452,7 +591,7 @@ fn any_year() -> u16 {
 }
 
 /// C01 for a range whose two bounds carry a year: every day from the start to the end, once.
-fn fixed_with_years_filter_body<const Y: i32>(known_finding_region: bool) {
+fn fixed_with_years_filter_body<const Y: i32>() {
     let (sy, sm, sd) = (any_year(), any_month(), any_day());
     let (ey, em, ed) = (any_year(), any_month(), any_day());
     let r = ds::MonthdayRange::Date {
@@ -464,40 +603,39 @@ fn fixed_with_years_filter_body<const Y: i32>(known_finding_region: bool) {
     let e = valid_ymd_before_model(ey as i32, em as u32, ed as u32);
     // a range whose end precedes its start is not defined by the statement
     nd::assume(s <= e);
-    // KF-C01-dated-range-spanning-four-years: neither bound lies within one year of the date
-    let in_region = (sy as i32) < d.year() - 1 && (ey as i32) > d.year() + 1;
-    nd::assume(in_region == known_finding_region);
     let got = r.filter(d, &ctx());
     vpost!("C01.dated.range_with_years_is_every_day_from_start_to_end", got == (s <= d && d <= e));
     vcover!("dated.years.hit_in_the_start_year", got && d.year() == sy as i32);
     vcover!("dated.years.hit_in_a_later_year", got && d.year() > sy as i32);
+    vcover!("dated.years.hit_more_than_a_year_from_both_bounds", got && d.year() > sy as i32 + 1 && d.year() < ey as i32 - 1);
     vcover!("dated.years.miss_after_the_end", !got && d > e);
     vcover!("dated.years.miss_before_the_start", !got && d < s);
 }
 
-//@H props=C01,C04 tier=deep want_tier=quick kind=complete cap=1800 mem=medium domain="all (year 1900..=9999, month, day 1..=31) start and end bounds with start <= end x all dates 1900..9999, outside the known-finding region; callees replaced by their contracts"
+//@H props=C01,C04 tier=deep want_tier=quick kind=complete cap=1800 mem=medium domain="all (year 1900..=9999, month, day 1..=31) start and end bounds with start <= end x all dates 1900..9999; callees replaced by their contracts"
 #[cfg_attr(kani, kani::proof)]
-#[cfg_attr(kani, kani::unwind(15))]
+#[cfg_attr(kani, kani::unwind(5))]
 #[cfg_attr(kani, kani::stub(super::valid_ymd_after, valid_ymd_after_model))]
 #[cfg_attr(kani, kani::stub(super::valid_ymd_before, valid_ymd_before_model))]
 #[cfg_attr(kani, kani::stub(super::is_open_from_bounds, is_open_from_bounds_contract))]
 #[cfg_attr(kani, kani::stub(super::next_change_from_bounds, next_change_from_bounds_contract))]
 #[cfg_attr(verif_replay, test)]
 fn dated_filter_fixed_with_years() {
-    fixed_with_years_filter_body::<0>(false)
+    fixed_with_years_filter_body::<0>()
 }
 
-//@H props=C01 tier=deep want_tier=quick kind=complete cap=1800 mem=medium finding=KF-C01-dated-range-spanning-four-years domain="ranges with years on both bounds, date more than one year after the start year and more than one year before the end year"
+//@H props=C01,C04 tier=deep want_tier=quick kind=bounded cap=1500 mem=medium bound="dates of the year 2024 (a leap year)" domain="all (year 1900..=9999, month, day 1..=31) start and end bounds with start <= end x every day of 2024; callees replaced by their contracts"
 #[cfg_attr(kani, kani::proof)]
-#[cfg_attr(kani, kani::unwind(15))]
+#[cfg_attr(kani, kani::unwind(5))]
 #[cfg_attr(kani, kani::stub(super::valid_ymd_after, valid_ymd_after_model))]
 #[cfg_attr(kani, kani::stub(super::valid_ymd_before, valid_ymd_before_model))]
 #[cfg_attr(kani, kani::stub(super::is_open_from_bounds, is_open_from_bounds_contract))]
 #[cfg_attr(kani, kani::stub(super::next_change_from_bounds, next_change_from_bounds_contract))]
 #[cfg_attr(verif_replay, test)]
-fn dated_filter_fixed_with_years_known_finding() {
-    fixed_with_years_filter_body::<0>(true)
+fn dated_filter_fixed_with_years_2024() {
+    fixed_with_years_filter_body::<2024>()
 }
+
 
 /// the range meant by `<sy> <sm> <sd> - <em> <ed>` (year on the start only): from the start to the first such end
 /// date on or after it
@@ -508,15 +646,15 @@ fn start_year_only_range(sy: u16, sm: Month, sd: u8, em: Month, ed: u8) -> (Naiv
     (s, e)
 }
 
-//@H props=C01 tier=deep want_tier=quick kind=complete cap=1800 mem=medium finding=KF-C01-dated-range-year-on-start-only domain="ranges whose start carries a year and whose end does not (`2021 Mar 28-Apr 16`) x all dates 1900..9999"
+//@H props=C01,C04 tier=deep want_tier=quick kind=complete cap=1800 mem=medium domain="ranges whose start carries a year and whose end does not (`2021 Mar 28-Apr 16`) x all dates 1900..9999"
 #[cfg_attr(kani, kani::proof)]
-#[cfg_attr(kani, kani::unwind(15))]
+#[cfg_attr(kani, kani::unwind(5))]
 #[cfg_attr(kani, kani::stub(super::valid_ymd_after, valid_ymd_after_model))]
 #[cfg_attr(kani, kani::stub(super::valid_ymd_before, valid_ymd_before_model))]
 #[cfg_attr(kani, kani::stub(super::is_open_from_bounds, is_open_from_bounds_contract))]
 #[cfg_attr(kani, kani::stub(super::next_change_from_bounds, next_change_from_bounds_contract))]
 #[cfg_attr(verif_replay, test)]
-fn dated_filter_year_on_start_only_known_finding() {
+fn dated_filter_year_on_start_only() {
     let (sy, sm, sd, em, ed) = (any_year(), any_month(), any_day(), any_month(), any_day());
     let r = ds::MonthdayRange::Date {
         start: (Date::ymd(sd, sm, sy), DateOffset::default()),
@@ -526,6 +664,9 @@ fn dated_filter_year_on_start_only_known_finding() {
     let (s, e) = start_year_only_range(sy, sm, sd, em, ed);
     let got = r.filter(d, &ctx());
     vpost!("C01.dated.range_with_year_on_start_only_is_every_day_from_start_to_the_next_such_end", got == (s <= d && d <= e));
+    vcover!("dated.start_year_only.hit", got);
+    vcover!("dated.start_year_only.end_in_the_next_year", got && e.year() > s.year() && d.year() == e.year());
+    vcover!("dated.start_year_only.miss_in_a_later_year", !got && d.year() > e.year());
 }
 
 /// C02 / C08 for the hint arm taken when the start bound carries a year (end with or without a year)
@@ -557,12 +698,12 @@ fn start_year_hint_body<const Y: i32>(end_has_year: bool) {
     vcover!("dated.start_year_hint.before", d < s);
     vcover!("dated.start_year_hint.inside", inside(d));
     vcover!("dated.start_year_hint.after", hint == Some(date_end()));
-    vcover!("dated.start_year_hint.end_in_next_year", !end_has_year && e.year() > s.year());
+    vcover!("dated.start_year_hint.end_in_next_year", end_has_year || e.year() > s.year());
 }
 
 //@H props=C02,C08,C04 tier=deep want_tier=quick kind=complete cap=1800 mem=medium domain="ranges with years on both bounds (existing days, start <= end) x all dates x all intermediate dates"
 #[cfg_attr(kani, kani::proof)]
-#[cfg_attr(kani, kani::unwind(15))]
+#[cfg_attr(kani, kani::unwind(6))]
 #[cfg_attr(kani, kani::stub(super::valid_ymd_after, valid_ymd_after_model))]
 #[cfg_attr(kani, kani::stub(super::valid_ymd_before, valid_ymd_before_model))]
 #[cfg_attr(kani, kani::stub(super::is_open_from_bounds, is_open_from_bounds_contract))]
@@ -574,7 +715,7 @@ fn dated_hint_years_on_both_bounds() {
 
 //@H props=C02,C08,C04 tier=deep want_tier=quick kind=complete cap=1800 mem=medium domain="ranges with a year on the start only (existing days) x all dates x all intermediate dates"
 #[cfg_attr(kani, kani::proof)]
-#[cfg_attr(kani, kani::unwind(15))]
+#[cfg_attr(kani, kani::unwind(6))]
 #[cfg_attr(kani, kani::stub(super::valid_ymd_after, valid_ymd_after_model))]
 #[cfg_attr(kani, kani::stub(super::valid_ymd_before, valid_ymd_before_model))]
 #[cfg_attr(kani, kani::stub(super::is_open_from_bounds, is_open_from_bounds_contract))]
@@ -596,7 +737,7 @@ fn fixed_no_year_hint_body<const Y: i32>() {
     // a hint never reaches further than the end of the following year for these ranges
     let between = any_date();
     // same carve-outs as the filter harness: invalid single day (known finding), leap-day arm
-    nd::assume(!(sm == em && sd <= ed && sd as u32 > 28 && (sd as u32 > days_in_month(d.year(), sm as u32) || sd as u32 > days_in_month(between.year(), sm as u32))));
+    nd::assume(!invalid_day_region(sm, sd, em, ed));
     nd::assume(!(sm == Month::February && em == Month::February && sd == 29 && ed == 29));
     let spec = |x: NaiveDate| spec_fixed_no_year(sm as u32, sd as u32, em as u32, ed as u32, x);
     let hint = r.next_change_hint(d, &ctx());
@@ -613,7 +754,7 @@ fn fixed_no_year_hint_body<const Y: i32>() {
 
 //@H props=C02,C08,C04 tier=deep want_tier=quick kind=complete cap=2400 mem=medium domain="all year-less (month, day) bounds x all dates x all intermediate dates, outside the invalid-day region; callees replaced by their contracts"
 #[cfg_attr(kani, kani::proof)]
-#[cfg_attr(kani, kani::unwind(15))]
+#[cfg_attr(kani, kani::unwind(6))]
 #[cfg_attr(kani, kani::stub(super::valid_ymd_after, valid_ymd_after_model))]
 #[cfg_attr(kani, kani::stub(super::valid_ymd_before, valid_ymd_before_model))]
 #[cfg_attr(kani, kani::stub(super::is_open_from_bounds, is_open_from_bounds_contract))]
@@ -622,6 +763,31 @@ fn fixed_no_year_hint_body<const Y: i32>() {
 fn dated_hint_fixed_no_year() {
     fixed_no_year_hint_body::<0>()
 }
+
+//@H props=C02,C08,C04 tier=deep want_tier=quick kind=bounded cap=1500 mem=medium bound="dates of the year 2024 (a leap year)" domain="all year-less (month, day) bounds x every day of 2024 x all intermediate dates, outside the invalid-day region; callees replaced by their contracts"
+#[cfg_attr(kani, kani::proof)]
+#[cfg_attr(kani, kani::unwind(6))]
+#[cfg_attr(kani, kani::stub(super::valid_ymd_after, valid_ymd_after_model))]
+#[cfg_attr(kani, kani::stub(super::valid_ymd_before, valid_ymd_before_model))]
+#[cfg_attr(kani, kani::stub(super::is_open_from_bounds, is_open_from_bounds_contract))]
+#[cfg_attr(kani, kani::stub(super::next_change_from_bounds, next_change_from_bounds_contract))]
+#[cfg_attr(verif_replay, test)]
+fn dated_hint_fixed_no_year_2024() {
+    fixed_no_year_hint_body::<2024>()
+}
+
+//@H props=C02,C08,C04 tier=deep want_tier=quick kind=bounded cap=1500 mem=medium bound="dates of the year 9999 (the last supported year)" domain="all year-less (month, day) bounds x every day of 9999 x all intermediate dates, outside the invalid-day region; callees replaced by their contracts"
+#[cfg_attr(kani, kani::proof)]
+#[cfg_attr(kani, kani::unwind(6))]
+#[cfg_attr(kani, kani::stub(super::valid_ymd_after, valid_ymd_after_model))]
+#[cfg_attr(kani, kani::stub(super::valid_ymd_before, valid_ymd_before_model))]
+#[cfg_attr(kani, kani::stub(super::is_open_from_bounds, is_open_from_bounds_contract))]
+#[cfg_attr(kani, kani::stub(super::next_change_from_bounds, next_change_from_bounds_contract))]
+#[cfg_attr(verif_replay, test)]
+fn dated_hint_fixed_no_year_9999() {
+    fixed_no_year_hint_body::<9999>()
+}
+
 
 //@H props=ENGINE tier=quick kind=canary cap=300 expect=fail
 #[cfg_attr(kani, kani::proof)]
